@@ -382,6 +382,177 @@ def garbage_classify(line, res):
     return "%s/%s/%s/alive%s" % (f.get("l"), f.get("via"), r.get("st", res.split(" ")[0]), r.get("alive", "?"))
 
 
+# ---------------------------------------------------------------- streamtimed: segmentation x TIME (round 3)
+# The listeners get a SHORT idle timeout (2 s; via=sock: `idle_timeout: 2` through the cfgspec key I, via=feed: the hook
+# parameter) and the segments of a pipelining client are sent at chosen instants: gaps[i] ms after the previous segment
+# (gaps[0]: after the connection is established).  Every schedule keeps the pacing hypothesis of C13_deadline with a wide
+# margin (tcp/dot: the last octet of each frame is sent at most T_MAX ms after the last octet of the frame before it;
+# gnet: every gap <= T_MAX), while the connection as a whole - and, in the classes marked (*), the time since the reader
+# last found its buffer empty at a frame boundary - lasts LONGER than the idle timeout.
+T_IDLE = 2000
+T_MAX = 1300        # planned distance to the deadline: >= 700 ms (the harness reports late=1 when it did not keep 150 ms)
+T_TOTAL = 2300      # (*) the stale deadline (armed T_IDLE after the accept) is overrun by >= 300 ms
+
+
+def tcfg(up="u"):
+    return cfg(up) + ";I=%d" % (T_IDLE // 1000)
+
+
+def arrivals(segs, gaps):
+    out, t = [], 0
+    for s, g in zip(segs, gaps):
+        t += g
+        out += [t] * len(s)
+    return out
+
+
+def msg_elapsed(frames, segs, gaps):
+    """per-message deadline: max over the frames of (arrival of its last octet) - (that of the frame before / the accept)"""
+    at = arrivals(segs, gaps)
+    worst, prev, off = 0, 0, 0
+    for f in frames:
+        off += len(f)
+        worst = max(worst, at[off - 1] - prev)
+        prev = at[off - 1]
+    return worst
+
+
+def timed_line(cid, cfgs, l, via, segs, gaps, ups, exp, ids, cls):
+    assert len(segs) == len(gaps) and all(g > 0 for g in gaps) and all(segs)
+    return ("%s cfg=%s l=%s via=%s idle=%d segs=%s gaps=%s ups=%s exp=%d hc=0 burst=0 probe=0 ids=%s cls=%s" %
+            (cid, cfgs, l, via, T_IDLE, ",".join(gens.hx(x) for x in segs), ",".join(str(g) for g in gaps),
+             ",".join("%d:%s" % (d, gens.hx(r)) for d, r in ups) or "-", exp, ",".join(sorted(ids)) or "-", cls))
+
+
+def big_query(rng, ids, n):
+    """a locally rejected query (rej.test -> NXDOMAIN) of exactly n octets: EDNS0 with one padding option"""
+    used = set(int(x.split(":")[0], 16) for x in ids)
+    qid = rng.choice([i for i in range(1, 65536) if i not in used][:5000])
+    head = struct.pack(">HHHHHH", qid, 0x0100, 1, 0, 0, 1) + REJ + b"\0" + struct.pack(">HH", 1, 1)
+    optlen = n - len(head) - 11 - 4
+    assert optlen >= 0
+    opt = struct.pack(">HH", 12, optlen) + bytes(optlen)
+    q = head + b"\0" + struct.pack(">HHIH", 41, 4096, 0, len(opt)) + opt
+    assert len(q) == n
+    return q, 3
+
+
+T_LISTENERS = [("tcp", "feed"), ("dot", "feed"), ("gnet", "feed"), ("tcp", "sock"), ("gnet", "sock")]
+
+
+def timed_gen(rng, tier):
+    ctr = Ctr(rng)
+    out = []
+    n = [0]
+
+    def g(lo, hi):
+        return rng.randrange(lo, hi + 1)
+
+    def partial_len(f):
+        # how much of a frame rides along with what precedes it: inside the prefix, the bare prefix, inside the body,
+        # everything but the last octet
+        return rng.choice([1, 2, 2 + rng.randrange(1, len(f) - 2), len(f) - 1])
+
+    def emit(cls, frames, ups, ids, segs, gaps, listeners):
+        stream = b"".join(frames)
+        assert b"".join(segs) == stream
+        for l, via in listeners:
+            if l == "gnet":
+                assert max(gaps) <= T_MAX, (cls, gaps)
+            else:
+                assert msg_elapsed(frames, segs, gaps) <= T_MAX, (cls, gaps)
+            n[0] += 1
+            out.append(timed_line("t%d" % n[0], tcfg("u"), l, via, segs, gaps, ups, len(frames), ids, cls))
+
+    def pick(k):
+        ls = list(T_LISTENERS)
+        if tier == "thorough" or k >= len(ls):
+            return ls
+        # always both deadline kinds, feed and sock over the run
+        return rng.sample(ls, k)
+
+    reps = budget(tier, 1, 4)
+    for rep in range(reps):
+        # (a) stale2 (*): whole frame(s) + the START of the next one; the rest one gap later
+        for _ in range(2):
+            k = rng.choice([2, 2, 3])
+            frames, ups, ids = build_frames(rng, ctr, k, delays=rng.choice(["none", "random"]))
+            head, last = b"".join(frames[:-1]), frames[-1]
+            m = partial_len(last)
+            emit("stale2", frames, ups, ids, [head + last[:m], last[m:]], [g(1150, T_MAX), g(1150, T_MAX)], pick(5))
+        # (b) chain (*): every segment = the tail of a frame + the head of the next: the buffer never drains at a boundary
+        k = rng.choice([3, 4])
+        frames, ups, ids = build_frames(rng, ctr, k, delays=rng.choice(["none", "random"]))
+        stream = b"".join(frames)
+        st = frame_starts(frames)
+        cuts = [st[i] + partial_len(frames[i]) for i in range(1, k)]
+        emit("chain", frames, ups, ids, cut(stream, cuts), [g(800, 1000) for _ in range(k)], pick(5))
+        # (b') bigframe (*): a whole small frame + the head of a frame LONGER than the bufio buffer (its body is read
+        #      straight from the connection, past the 1 KiB buffer), the rest one gap later
+        frames, ups, ids = build_frames(rng, ctr, 1, delays="none")
+        bq, brc = big_query(rng, ids, rng.choice([1023, 1024, 1025, 1400, 3000]))
+        frames.append(frame(bq))
+        ids.append("%04x:%d" % (struct.unpack(">H", bq[:2])[0], brc))
+        m = len(frames[0]) + rng.choice([1, 2, 2 + rng.randrange(1, 1000), len(frames[1]) - 1])
+        stream = b"".join(frames)
+        emit("bigframe", frames, ups, ids, [stream[:m], stream[m:]], [g(1150, T_MAX), g(1150, T_MAX)], pick(3))
+        # (c) boundary: one whole frame per segment (the buffer drains every time); the connection outlives the timeout
+        frames, ups, ids = build_frames(rng, ctr, 3, delays="none")
+        emit("boundary", frames, ups, ids, list(frames), [g(1000, 1200) for _ in range(3)], pick(3))
+        # (d) firstcut (*): the FIRST frame arrives in two pieces, its rest together with a whole frame and the start of a
+        #     third one; nothing re-arms a drained-only deadline since the accept
+        frames, ups, ids = build_frames(rng, ctr, 3, delays=rng.choice(["none", "random"]))
+        stream = b"".join(frames)
+        st = frame_starts(frames)
+        cuts = [partial_len(frames[0]), st[2] + partial_len(frames[2])]
+        emit("firstcut", frames, ups, ids, cut(stream, cuts), [g(600, 650), g(600, 650), g(1150, T_MAX)], pick(4))
+        # (e) trickle (gnet only: the timer is per read event; handleConn's deadline is per message, see
+        #     C13_slow_frame_note): ONE frame in four pieces over more than the timeout
+        frames, ups, ids = build_frames(rng, ctr, 1)
+        f0 = frames[0]
+        pts = sorted(rng.sample(range(1, len(f0)), 3))
+        emit("trickle", frames, ups, ids, cut(f0, pts), [g(650, 800) for _ in range(4)], [("gnet", "feed"), ("gnet", "sock")])
+        # (f) random cuts, random gaps (rejection-sampled to keep the pacing hypothesis; total time > timeout)
+        for _ in range(2):
+            k = rng.choice([3, 4, 5])
+            frames, ups, ids = build_frames(rng, ctr, k, delays=rng.choice(["none", "random", "reverse"]))
+            stream = b"".join(frames)
+            for attempt in range(200):
+                nseg = rng.choice([3, 3, 4])
+                segs = cut(stream, [rng.randrange(1, len(stream)) for _ in range(nseg - 1)])
+                gaps = [g(300, T_MAX) for _ in segs]
+                if sum(gaps) >= T_TOTAL and msg_elapsed(frames, segs, gaps) <= T_MAX and sum(gaps) <= 4500:
+                    emit("random", frames, ups, ids, segs, gaps, pick(3))
+                    break
+    return out
+
+
+def timed_compare(ir, mr):
+    if " late=1" in ir or mr.startswith("INCONCLUSIVE"):
+        return not (ir.startswith("PANIC") or ir.startswith("HANG") or ir.startswith("CRASH"))
+    if not ir.startswith("st="):
+        return ir == mr
+    return _proj(ir, ("raw", "ord", "late")) == mr
+
+
+def timed_oracle(line, res):
+    """the property itself: every query of the (paced) stream is answered exactly once, the connection stays open"""
+    if " late=1" in res:
+        return None
+    o = stream_oracle(line, res)
+    if o and gens.fields(res).get("st") == "closed":
+        f = gens.fields(line)
+        o += (" (idle_timeout %s ms; segments sent %s ms apart: %s)" % (f.get("idle"), f.get("gaps"),
+              "the client was never silent for more than %d ms" % T_MAX if f.get("l") == "gnet" else
+              "no frame was completed later than %d ms after the one before it" % T_MAX))
+    return o
+
+
+def timed_classify(line, res):
+    f = gens.fields(line)
+    return "%s/%s/%s%s" % (f.get("l"), f.get("via"), f.get("cls"), "/late" if " late=1" in res else "")
+
+
 C13_KINDS = [
     dict(name="stream", gen=stream_gen, oracle=stream_oracle, compare=stream_compare, respec=stream_respec,
          respec_kind="streamspec", respec_all=True, classify=stream_classify,
@@ -389,6 +560,9 @@ C13_KINDS = [
     dict(name="streamgarbage", gen=garbage_gen, oracle=garbage_oracle, compare=garbage_sock_compare, respec=stream_respec,
          respec_kind="streamspec", respec_all=True, classify=garbage_classify,
          nontrivial=lambda l, r: "alive=1" in r, timeout=600, shards=4),
+    dict(name="streamtimed", gen=timed_gen, oracle=timed_oracle, compare=timed_compare, respec=stream_respec,
+         respec_kind="streamspec", respec_all=True, classify=timed_classify,
+         nontrivial=lambda l, r: r.startswith("st=open") and " n=0 " not in r and " late=1" not in r, timeout=600),
 ]
 
 PROPS["C13"] = dict(
@@ -403,14 +577,29 @@ PROPS["C13"] = dict(
          "listeners over loopback. Observed: the octets read back, parsed as frames; the multiset of response bodies "
          "(byte-exact against the router model), ids/rcodes, open/closed; over-limit cases use max_concurrent_queries=2 and a "
          "500 ms upstream. streamgarbage: undecodable frames, frames longer than sent, zero-length frames, arbitrary octets, "
-         "bit flips, then a valid query on a new connection. distinct = distinct case line; non-trivial = at least one "
-         "response read back (stream) / the probe was answered (streamgarbage)",
+         "bit flips, then a valid query on a new connection. streamtimed (segmentation x time): the listeners get an idle "
+         "timeout of 2 s (via=sock: idle_timeout: 2 in the configuration; via=feed: the same handleConn / OnOpen+OnTraffic "
+         "built with idleTimeout 2 s) and the segments are sent at chosen instants: whole frame(s) + the START of the next "
+         "one (1 octet, bare prefix, inside the body, all but one octet) and the rest 1.15-1.3 s later; every segment = "
+         "tail of a frame + head of the next; one frame per segment; the first frame in two pieces; a frame longer than "
+         "the bufio buffer; one frame trickling in over 2.6-3.2 s (gnet only); random cuts with random gaps - always such "
+         "that no frame is completed later than 1.3 s after the one before it (gnet: no gap above 1.3 s) while the "
+         "connection, and in most classes the time since the reader last saw an empty buffer at a frame boundary, "
+         "outlasts the timeout by >= 300 ms: every query must still be answered once and the connection stay open. "
+         "distinct = distinct case line; non-trivial = at least one "
+         "response read back (stream, streamtimed and the harness was on time) / the probe was answered (streamgarbage)",
     assumptions=["each Write/AsyncWrite call is atomic with respect to the other writers of the connection (net.Conn, gnet)",
                  "loopback delivery; handlers of forwarded queries do not finish before the reader has consumed a burst "
                  "that arrived in one segment (500 ms upstream delay in the over-limit cases)",
                  "zero-length frames are outside the property (C13_zero_len_note): on the wire they are only sent to the "
-                 "tcp listener, whose reaction does not depend on segmentation"],
-    trusted=["C13: bufio.Reader/io.ReadFull/net.Conn.Read and gnet.Conn.Next are modelled (DESIGN 6); the fake gnet.Conn of "
+                 "tcp listener, whose reaction does not depend on segmentation",
+                 "streamtimed: the readers take no time (model) / the process is not stalled for 250 ms or more and the "
+                 "sending goroutine keeps 150 ms of distance to the timeout (harness; a run that did not is reported "
+                 "late=1 and not compared); when and whether an idle connection is closed is outside the property and "
+                 "not compared"],
+    trusted=["C13: SetReadDeadline = an absolute instant after which a conn.Read that has to wait fails, buffered octets are "
+             "served without a deadline check; time.AfterFunc/Reset = one timer per connection (Net/FramingTimed.v)",
+             "C13: bufio.Reader/io.ReadFull/net.Conn.Read and gnet.Conn.Next are modelled (DESIGN 6); the fake gnet.Conn of "
              "the harness implements Next/InboundBuffered/Write/AsyncWrite with the semantics read from gnet v2.3.6",
              "C13: response bytes are predicted with the router model of C03 (handle/respond/refuse)"],
     level_note="C13_decode_once is proved for both readers for every frame list, every decoder verdict and every "
@@ -419,5 +608,9 @@ PROPS["C13"] = dict(
                "C13_over_limit for every arrival/completion history. DoT shares handleConn with TCP (tls.Conn under the "
                "same reader and writers); it is exercised through handleConn over net.Pipe with a temporary certificate, "
                "not through a listening socket. Zero-length frames are outside the property "
-               "(C13_zero_len_note).",
+               "(C13_zero_len_note). Time: C13_deadline_tcp / C13_idle_timer_gnet are proved for every timed "
+               "segmentation that keeps the pacing hypothesis (per message for handleConn, per read event for gnet) in a "
+               "model whose readers take no time; the variant that re-arms the deadline only when the bufio reader is "
+               "drained is refuted (C13_rearm_when_drained_refuted). The deadline/timer semantics of net.Conn / time.Timer "
+               "are modelled and exercised with a 2 s timeout, not verified.",
 )
